@@ -413,6 +413,10 @@ pub struct PtyCase {
     len: Option<u64>,
     tpl: STpl,
     ops: Vec<BOp>,
+    /// the device reports no window size (0 x 0, as a fresh pty or a serial console does): the library
+    /// falls back to 24 rows x 80 columns, for every kind of draw alike
+    #[serde(default)]
+    unknown_size: bool,
 }
 
 struct Pty {
@@ -457,14 +461,14 @@ fn drain(p: &mut Pty, grid: &mut crate::vterm::Grid) {
 fn run_pty(c: &PtyCase) -> CaseResult {
     use std::io::Write;
     let _clk = clock::Armed::new();
-    let (rows, cols) = (c.rows.max(2) as usize, c.cols.max(2) as usize);
+    let (rows, cols) = if c.unknown_size { (24, 80) } else { (c.rows.max(2) as usize, c.cols.max(2) as usize) };
     let mut st = BarState::new(c.len, c.tpl.clone());
     let mut v = Verdict::default();
     if height_of(&st.frame(), cols) > rows {
         v.label("initial_frame_too_tall");
         return Ok(v);
     }
-    let mut pty = open_pty(rows as u16, cols as u16).map_err(|e| Fail::new("harness", e))?;
+    let mut pty = if c.unknown_size { open_pty(0, 0) } else { open_pty(rows as u16, cols as u16) }.map_err(|e| Fail::new("harness", e))?;
     let dup = |f: &std::fs::File| f.try_clone().map_err(|e| Fail::new("harness", e.to_string()));
     let term = console::Term::read_write_pair(dup(&pty.slave)?, dup(&pty.slave)?);
     let mut user_out = dup(&pty.slave)?;
@@ -516,6 +520,7 @@ fn run_pty(c: &PtyCase) -> CaseResult {
     v.label_if(tall, "frame_with_more_rows_than_the_window_has_columns");
     v.label_if(log.iter().any(|l| console::measure_text_width(l) > cols), "log_wraps");
     v.label("real_terminal_device");
+    v.label_if(c.unknown_size, "device_reports_no_window_size");
     Ok(v)
 }
 
@@ -523,7 +528,7 @@ fn pty_strategy(tier: Tier) -> BoxedStrategy<PtyCase> {
     let n = tier.pick(16, 30);
     (20u8..=40, prop_oneof![3 => 3u8..10, 1 => 10u8..30])
         .prop_flat_map(move |(rows, cols)| (Just(rows), Just(cols), proptest::option::weighted(0.8, 0u64..100), stpl_strategy(), proptest::collection::vec(bop_strategy(cols as usize), 0..n)))
-        .prop_map(|(rows, cols, len, tpl, ops)| PtyCase { rows, cols, len, tpl, ops })
+        .prop_map(|(rows, cols, len, tpl, ops)| PtyCase { unknown_size: rows % 5 == 0, rows, cols, len, tpl, ops })
         .boxed()
 }
 
@@ -566,12 +571,12 @@ pub fn property() -> Property {
         }),
         Box::new(Gen::<PtyCase> {
             name: "real_term",
-            rule: "the same histories through ProgressDrawTarget::term over console::Term on a pseudo-terminal (openpty) whose window is 20..40 rows x 3..29 columns: the escape sequences and size queries of the real-terminal path reach a terminal device, what arrives at the master side is interpreted by the harness's emulator and compared, after every operation, with printed lines ++ current frame and the cursor clause; non-trivial = a frame with more rows than the window has columns was on screen",
+            rule: "the same histories through ProgressDrawTarget::term over console::Term on a pseudo-terminal (openpty) whose window is 20..40 rows x 3..29 columns, or which reports no window size at all (the documented 24 x 80 fallback then applies): the escape sequences and size queries of the real-terminal path reach a terminal device, what arrives at the master side is interpreted by the harness's emulator and compared, after every operation, with printed lines ++ current frame and the cursor clause; non-trivial = a frame with more rows than the window has columns was on screen",
             strategy: pty_strategy,
             cases: |t| t.pick(1_500, 100_000),
             run: run_pty,
             signature: |c| signature(&BarCase { rows: c.rows, cols: c.cols, len: c.len, tpl: c.tpl.clone(), ops: c.ops.clone(), wide: 0 }),
-            essential: &["real_terminal_device", "frame_with_more_rows_than_the_window_has_columns", "log_wraps"],
+            essential: &["real_terminal_device", "frame_with_more_rows_than_the_window_has_columns", "log_wraps", "device_reports_no_window_size"],
             workers: w,
             decode: None,
         })],
